@@ -51,6 +51,8 @@ Apply(s, Reserved, o, id) ==
     [] o.op = "get"     -> Keep(s)
     [] o.op = "readd"   -> Keep(s)      \* the object already bound to o.name is assigned / added again under that name:
                                         \* nothing may change (whether the call is accepted or refused is left open)
+    [] o.op = "alias"   -> Reject(s)    \* the object bound to o.mode is assigned to ANOTHER name o.name: an attribute has a single name; refused,
+                                        \* nothing changes (else one object sits under two names and is exported twice)
     [] o.op = "del"     -> Reject(s)
     [] o.op = "subclass"-> Reject(s)
     [] o.op = "elab"    -> [st |-> [s EXCEPT !.elab = TRUE], raised |-> FALSE]
